@@ -305,6 +305,131 @@ pub async fn socks5_connect(proxy: SocketAddr, dest: SocketAddr) -> Result<TcpSt
     socks5_connect_on(s, dest).await
 }
 
+/// A target that SPEAKS FIRST (sends `banner` the instant it is connected) behind a front-end; the client may also send
+/// `early` bytes right behind its request. The front-end's reply must come first and whole, then exactly the banner,
+/// then the echo of the early bytes and of a marker. Err((clause, detail)) names what was broken.
+pub async fn speaks_first_exchange(front: &str, proxy: SocketAddr, target: SocketAddr, banner: &[u8], early: &[u8]) -> Result<(), (String, String)> {
+    let io = |e: std::io::Error| ("io".to_string(), e.to_string());
+    let mut s = TcpStream::connect(proxy).await.map_err(io)?;
+    let _ = s.set_nodelay(true);
+    let rd = |what: &'static str| move |_| ("reply".to_string(), format!("connection ended or stalled while reading {what}"));
+    if front == "socks5" {
+        s.write_all(&[5, 1, 0]).await.map_err(io)?;
+        let mut r = [0u8; 2];
+        tokio::time::timeout(Duration::from_secs(5), s.read_exact(&mut r)).await.map_err(rd("the method reply"))?.map_err(io)?;
+        if r != [5, 0] {
+            return Err(("reply".into(), format!("method reply {:02x?}", r)));
+        }
+        let mut req = vec![5u8, 1, 0];
+        match target {
+            SocketAddr::V4(a) => {
+                req.push(1);
+                req.extend_from_slice(&a.ip().octets());
+            }
+            SocketAddr::V6(a) => {
+                req.push(4);
+                req.extend_from_slice(&a.ip().octets());
+            }
+        }
+        req.extend_from_slice(&target.port().to_be_bytes());
+        req.extend_from_slice(early);
+        s.write_all(&req).await.map_err(io)?;
+        let mut h = [0u8; 4];
+        tokio::time::timeout(Duration::from_secs(10), s.read_exact(&mut h)).await.map_err(rd("the reply"))?.map_err(io)?;
+        if h[0] != 5 || h[1] != 0 || h[2] != 0 || !matches!(h[3], 1 | 3 | 4) {
+            return Err(("reply".into(), format!("the first bytes after the request are {:02x?}: not a SOCKS5 success reply (tunnel bytes before or inside the reply?)", h)));
+        }
+        let alen = match h[3] {
+            1 => 4,
+            4 => 16,
+            _ => {
+                let mut l = [0u8; 1];
+                tokio::time::timeout(Duration::from_secs(5), s.read_exact(&mut l)).await.map_err(rd("the reply"))?.map_err(io)?;
+                l[0] as usize
+            }
+        };
+        let mut rest = vec![0u8; alen + 2];
+        tokio::time::timeout(Duration::from_secs(5), s.read_exact(&mut rest)).await.map_err(rd("the reply"))?.map_err(io)?;
+    } else {
+        let mut req = format!("CONNECT {target} HTTP/1.1\r\nHost: {target}\r\n\r\n").into_bytes();
+        req.extend_from_slice(early);
+        s.write_all(&req).await.map_err(io)?;
+        let mut acc = vec![];
+        let mut b = [0u8; 1];
+        while !acc.ends_with(b"\r\n\r\n") {
+            match tokio::time::timeout(Duration::from_secs(10), s.read(&mut b)).await {
+                Ok(Ok(1)) => acc.push(b[0]),
+                _ => return Err(("reply".into(), format!("CONNECT reply incomplete: {:?}", String::from_utf8_lossy(&acc)))),
+            }
+            if acc.len() > 4096 {
+                return Err(("reply".into(), "CONNECT reply header longer than 4096 bytes".into()));
+            }
+        }
+        if !acc.starts_with(b"HTTP/1.1 200") || acc.windows(4).any(|w| w == &banner[..banner.len().min(4)] && banner.len() >= 4) {
+            return Err(("reply".into(), format!("CONNECT reply {:?} (tunnel bytes inside the reply?)", String::from_utf8_lossy(&acc))));
+        }
+    }
+    // exactly the banner, then the echo of the early bytes, then of a marker
+    let mut got = vec![0u8; banner.len()];
+    if tokio::time::timeout(Duration::from_secs(10), s.read_exact(&mut got)).await.map(|r| r.is_err()).unwrap_or(true) {
+        return Err(("banner".into(), format!("the {}-byte banner the target sent on connect did not arrive completely", banner.len())));
+    }
+    if got != banner {
+        let at = got.iter().zip(banner.iter()).position(|(a, b)| a != b).unwrap_or(0);
+        return Err(("banner".into(), format!("the bytes after the reply differ from the target's banner at offset {at} of {}", banner.len())));
+    }
+    let marker = b"<<marker>>";
+    s.write_all(marker).await.map_err(io)?;
+    let mut want = early.to_vec();
+    want.extend_from_slice(marker);
+    let mut echo = vec![0u8; want.len()];
+    if tokio::time::timeout(Duration::from_secs(10), s.read_exact(&mut echo)).await.map(|r| r.is_err()).unwrap_or(true) || echo != want {
+        return Err(("echo".into(), format!("after the banner the echo of {} early bytes + marker came back as {:?}", early.len(), String::from_utf8_lossy(&echo))));
+    }
+    Ok(())
+}
+
+/// LX pass shared by C16 (SOCKS5) and C17 (HTTP CONNECT): targets that speak first, with and without early client bytes.
+pub fn speaks_first_pass(rep: &mut crate::report::Report, prop: &str, front: &'static str, thorough: bool) {
+    let rt = crate::semi::rt_multi();
+    let r: Result<Vec<(String, Option<(String, String)>)>, String> = rt.block_on(async {
+        let lx = start_lx("pw", "pw", crate::lx::pool_cfg(3600, 3600, 1), front == "socks5", front != "socks5").await?;
+        let proxy = if front == "socks5" { lx.socks.unwrap() } else { lx.http.unwrap() };
+        let mut out = vec![];
+        for blen in [1usize, 64, 5000, 70000] {
+            let mut banner = b"BNR!".to_vec();
+            banner.truncate(blen.min(4));
+            while banner.len() < blen {
+                banner.push(b'a' + (banner.len() % 23) as u8);
+            }
+            let t = start_target("127.0.0.1", TargetMode::Echo, banner.clone()).await;
+            for early in [0usize, 10] {
+                for rep_no in 0..(if thorough { 10 } else { 3 }) {
+                    let e: Vec<u8> = (0..early).map(|k| b'0' + (k % 10) as u8).collect();
+                    let name = format!("{front}: target sends a {blen}-byte banner on connect, client sends {early} early bytes (run {rep_no})");
+                    out.push((name, speaks_first_exchange(front, proxy, t.addr, &banner, &e).await.err()));
+                }
+            }
+        }
+        Ok(out)
+    });
+    match r {
+        Err(e) => rep.machinery(format!("LX start failed (speaks-first pass): {e}")),
+        Ok(v) => {
+            for (name, res) in v {
+                rep.case(Some(&name));
+                if let Some((clause, detail)) = res {
+                    if clause == "io" {
+                        rep.machinery(format!("{name}: {detail}"));
+                    } else {
+                        rep.violation(&format!("{prop}:target-speaks-first:{clause}"), &format!("{name}: {detail}"), serde_json::json!({"engine": "LX", "case": name}));
+                    }
+                }
+            }
+        }
+    }
+}
+
 pub async fn socks5_connect_on(mut s: TcpStream, dest: SocketAddr) -> Result<TcpStream, String> {
     let _ = s.set_nodelay(true);
     s.write_all(&[5, 1, 0]).await.map_err(|e| e.to_string())?;
